@@ -17,9 +17,9 @@ for i in ids:
         "evidence_file": "/verif/evidence/%s.json" % i,
         "replay_cmd_template": "./check %s --replay {path}" % i,
         "engine": "lean-proof+correspondence",
-        "level_claimed": {"category": "proof", "text": c.get("level_text", ""), "design_ref": c.get("design_ref", "DESIGN.md section 5, " + i)},
+        "level_claimed": {"category": "proof", "text": c.get("level_text", "theorems for all inputs / schedules of the model (DESIGN 0.7 lists them per property); model-to-code tie checked, not proved (DESIGN 9: trusted base)"), "design_ref": c.get("design_ref", "DESIGN.md section 5, " + i)},
         "level_note": c.get("level_note", ""),
-        "technique": c.get("technique", "Lean 4 theorems about a hand-written executable model + differential correspondence check against the real code"),
+        "technique": c.get("technique", "machine-checked proof in Lean 4: property theorems (kernel-checked, #print-axioms audited on every run) about an executable model; the model is tied to /repo's current source on every run by (a) a translator (source -> GoIR terms, `rfl` Tie obligations, refinement theorems interpretation-of-source = model) and (b) a differential correspondence check (real code vs compiled Lean model on generated scenarios); searches only look for the failing input"),
     })
 na = [{"property_id": i, "reason": P.get(i, {}).get("unclaimed", "check not built yet in this round (planned, see DESIGN.md section 13)")}
       for i in ids if i not in P or P[i].get("unclaimed")]
